@@ -63,6 +63,8 @@ func genOp(variants bool) *rapid.Generator[Op] {
 		var o Op
 		w := rapid.IntRange(0, 199).Draw(t, "kind") / 2
 		switch {
+		case w == 50: // an interior value: rapid favours the ends of an integer range
+			o.K = "flush"
 		case w < 24:
 			o.K = "sub"
 			o.A = rapid.IntRange(0, nAcc-1).Draw(t, "a")
@@ -90,7 +92,7 @@ func genOp(variants bool) *rapid.Generator[Op] {
 		case w < 76:
 			o.K = "reap"
 			o.N = rapid.SampledFrom([]int{0, 1, 3, -1, bigReap, 2, 5}).Draw(t, "n")
-		case w < 99:
+		default:
 			o.K = "commit"
 			o.Take = make([]int, nAcc)
 			mode := rapid.IntRange(0, 3).Draw(t, "mode")
@@ -107,8 +109,6 @@ func genOp(variants bool) *rapid.Generator[Op] {
 				o.Hole = rapid.IntRange(1, 4).Draw(t, "hole")
 				o.HA = rapid.IntRange(0, nAcc-1).Draw(t, "ha")
 			}
-		default:
-			o.K = "flush"
 		}
 		return o
 	})
